@@ -45,7 +45,7 @@ def run(mut):
         return mid, 'GO-DOES-NOT-COMPILE '+r.stderr[:200]
     r=subprocess.run([G2L,'-repo','/repo','-pars',COPY,'-out',WT+'/lean/Gts/Gen'],env=ENV,capture_output=True,text=True)
     refused=[l for l in r.stdout.split('\n') if 'REFUSED' in l]
-    r=subprocess.run(['lake','build','Gts.Bridge.ParsFacts','Gts.Bridge.ParsComb'],cwd=WT+'/lean',capture_output=True,text=True)
+    r=subprocess.run(['lake','build','Gts.Bridge.ParsFacts','Gts.Bridge.ParsComb','Gts.Bridge.ParsSeq','Gts.Props.C07Pars'],cwd=WT+'/lean',capture_output=True,text=True)
     out=r.stdout+r.stderr
     broken=set()
     for m in re.finditer(r'error: (?:\./)?(Gts/[\w/]+\.lean):(\d+):\d+', out):
